@@ -139,7 +139,10 @@ AllPrefixes == <<
   <<Adv(A1), <<"append", A1, 0>>, Adv(A1), <<"flush", A1, 0>>, <<"seal", A1, 1>>>>,       \* 12 g0 flushed, g1 sealed
   <<Adv(A1), Adv(B1)>>,                                                                   \* 13 two regions open
   <<Adv(A1), Adv(B1), <<"seal", A1, 0>>, <<"flush", A1, 0>>, <<"seal", B1, 0>>, <<"flush", B1, 0>>>>, \* 14 both flushed
-  <<Adv(A1), Adv(A1), <<"flush", A1, 0>>, <<"merge", A1, 0>>, Adv(B1)>>                  \* 15 A: merged+open, B: open
+  <<Adv(A1), Adv(A1), <<"flush", A1, 0>>, <<"merge", A1, 0>>, Adv(B1)>>,                 \* 15 A: merged+open, B: open
+  <<Adv(A1), Adv(A1), <<"flush", A1, 0>>, <<"mmerge", A1, 0>>, <<"trim", "", 0>>>>,       \* 16 g0 merged by merge_insert and trimmed, g1 open
+  <<Adv(A1), <<"seal", A1, 0>>, <<"flush", A1, 0>>, <<"mmerge", A1, 0>>, <<"trim", "", 0>>>>,  \* 17 region emptied after merge_insert
+  <<Adv(A1), <<"seal", A1, 0>>, <<"owner", A1, 0>>, Adv(A1)>>                             \* 18 owner changed, then advanced
 >>
 
 V1 == [idx |-> FALSE, list |-> <<>>, txn |-> NoTxn]      \* the freshly created table
